@@ -420,6 +420,8 @@ def _worker(args):
     idx, case, base = args
     warnings.filterwarnings("ignore")
     vlib.setup_impl_path()
+    import torch
+    torch.set_num_threads(1)
     root = os.path.join(base, f"w{os.getpid()}")
     os.makedirs(root, exist_ok=True)
     try:
@@ -436,7 +438,7 @@ def run_impl_all(chk, cases):
     os.makedirs(base, exist_ok=True)
     jobs = [(i, c, base) for i, c in enumerate(cases)]
     res = [None] * len(cases)
-    nproc = min(int(os.environ.get("VERIF_JOBS", "16")), 12)
+    nproc = min(int(os.environ.get("VERIF_JOBS", "16")), 8)
     if len(cases) < 40:
         for j in jobs:
             i, r = _worker(j)
